@@ -629,7 +629,12 @@ def _load_plugins():
     import glob
     import importlib
     for path in sorted(glob.glob(os.path.join(os.path.dirname(__file__), "gen_targets_*.py"))):
-        mod = importlib.import_module("harness." + os.path.basename(path)[:-3])
+        try:
+            mod = importlib.import_module("harness." + os.path.basename(path)[:-3])
+        except Exception:  # noqa  (a half-written plug-in must not take the other groups down; its own group then
+            continue       #        raises KeyError in regenerate, i.e. is reported as a broken obligation)
+        if not (getattr(mod, "GROUP", None) and isinstance(getattr(mod, "TARGETS", None), list)):
+            continue
         TARGETS[mod.GROUP] = mod.TARGETS
         if getattr(mod, "HEADER", None):
             HEADERS[mod.GROUP] = mod.HEADER
@@ -646,6 +651,9 @@ def regenerate(pid, group, res):
     proofs_src = os.path.join(C.COQ, "gen", f"GenProofs_{group}.v")
     n_obl = len(re.findall(r"^\s*(?:Theorem|Lemma)\s", open(proofs_src).read(), re.M))
     res.extra_obligations += n_obl
+    if group not in TARGETS:
+        res.proof_breaks.append({"what": f"target table of group {group} could not be loaded (harness/gen_targets_{group}.py)", "output": ""})
+        return None
     try:
         text = "From SV Require Import Xq NNM.\n" + HEADERS.get(group, "") + "Open Scope Q_scope.\n\n" + \
             "\n".join(translate(t) for t in TARGETS[group])
